@@ -56,13 +56,25 @@ def run(ctx):
     bl = runner.get_bashlex()
     have_bash = os.path.exists('/usr/bin/bash') or os.path.exists('/bin/bash')
     base = [s for s in common.corpus_inputs() if len(s) < 120] + common.random_scripts(seed, 400 if quick else 6000, wrap=0, unsupported=0, heredocs=False)
+    # interactions of two features: compound commands inside substitutions inside other constructs
+    comps = ['if b; then c; fi', 'while b; do c; done', 'for i in 1 2; do c; done', 'case y in p) c;; esac', '{ b; c; }', '( b; c )', 'b | c', 'b && c', 'f() { b; }', 'until b; do c; done', 'if b; then c; else d; fi']
+    embeds = ['case x in a) echo $(%s);; esac', 'case x in a) y=$(%s);; b) c;; esac', 'case x in $(%s)|c) d;; esac', 'case x in a) e `%s`;; esac', 'a $(%s) b', 'a "$(%s)" b', 'a `%s` b', 'f() { a $(%s); }',
+              'if a; then b $(%s); fi', 'a <(%s) c', 'a | b $(%s) && c', 'for i in $(%s); do a; done', 'x=$(%s) y', 'a $(b $(%s))', '{ a $(%s); }', '( a `%s` )', 'while a $(%s); do b; done', 'a >$(%s)', 'a <<<$(%s)']
+    base += [e % c for e in embeds for c in (comps if not quick else rng.sample(comps, 4))]
     cases = []
+    okbase = []
     for s in common.dedup(base):
         try:
             if not bl.parse(s): continue
         except Exception:
             continue
-        if have_bash and bash_rejects(s): continue      # the base itself must be well-formed for bash too
+        okbase.append(s)
+    if have_bash:
+        # the base itself must be well-formed for bash too (bash -n runs, 16 at a time)
+        from concurrent.futures import ThreadPoolExecutor
+        with ThreadPoolExecutor(16) as ex: rej = list(ex.map(bash_rejects, okbase))
+        okbase = [s for s, r in zip(okbase, rej) if not r]
+    for s in okbase:
         for kind, e in edits(rng, s):
             cases.append((kind, e))
     cases = [(k, e) for (k, e) in dict((e, k) for k, e in cases).items()] if False else list({e: (k, e) for k, e in cases}.values())
